@@ -336,6 +336,11 @@ fn eval_class(name: &str) -> Vec<(String, String)> {
 pub fn replay(input: &Value) -> Vec<(String, String)> {
 	match input["kind"].as_str().unwrap_or("") {
 		"class" => eval_class(input["type"].as_str().unwrap_or("")),
+		"symlink-leg" => {
+			let mut o = EnumOut::new("replay");
+			symlink_leg(&mut o);
+			o.violations.into_iter().map(|c| (c.key, c.detail)).collect()
+		}
 		"root-leg" => {
 			// re-run the whole (small) filesystem-root leg and report its violations
 			let mut o = EnumOut::new("replay");
@@ -483,6 +488,7 @@ pub fn run(tier: Tier, seed: u64) -> EnumOut {
 		}
 	}
 	root_leg(&mut out);
+	symlink_leg(&mut out);
 	out.extra.insert("marker_names".into(), json!(names.len() - DECOYS.len()));
 	out.extra.insert("decoy_names".into(), json!(DECOYS.len()));
 	out.extra.insert("project_types".into(), json!(TYPES.len()));
@@ -502,6 +508,64 @@ pub fn run(tier: Tier, seed: u64) -> EnumOut {
 // never a verdict) when chroot(2) is not permitted.
 
 const ROOT_CASES: [(&str, bool); 4] = [("", false), ("Cargo.toml", false), (".git", true), ("package.json", false)];
+
+/// Symlinked-chain leg: the chain is the *given* path and its (lexical) ancestors. A start
+/// path that runs through a symlinked directory must give origins on that spelled chain, not
+/// on the chain of the link's target.
+fn symlink_leg(out: &mut EnumOut) {
+	let scratch = Scratch::new("c20-link");
+	let rt = tokio::runtime::Builder::new_current_thread().enable_all().build().expect("runtime");
+	let root = std::fs::canonicalize(scratch.path()).unwrap_or_else(|_| scratch.path().to_path_buf());
+	let mut cases = 0u64;
+	for (marker, is_dir) in [("Cargo.toml", false), (".git", true), ("package.json", false)] {
+		let base = root.join(format!("t-{}", marker.trim_start_matches('.')));
+		let real = base.join("real");
+		let proj = real.join("proj");
+		let link_parent = base.join("b");
+		let _ = std::fs::create_dir_all(proj.join("sub"));
+		let _ = std::fs::create_dir_all(&link_parent);
+		// the target's own parent is marked too: a walk over the physical chain would report it
+		let _ = std::fs::create_dir_all(real.join(".hg"));
+		if is_dir {
+			let _ = std::fs::create_dir_all(proj.join(marker));
+		} else {
+			let _ = std::fs::write(proj.join(marker), b"");
+		}
+		let link = link_parent.join("link");
+		if std::os::unix::fs::symlink("../real/proj", &link).is_err() {
+			out.extra.insert("symlinked_chain_leg".into(), json!("skipped: cannot create a symlink"));
+			return;
+		}
+		for start in [link.clone(), link.join("sub")] {
+			cases += 1;
+			out.states += 1;
+			out.evaluations += 1;
+			let got = rt.block_on(project_origins::origins(&start));
+			let chain: Vec<PathBuf> = start.ancestors().map(Path::to_path_buf).collect();
+			let input = json!({"kind": "symlink-leg"});
+			for g in &got {
+				if !chain.contains(g) {
+					out.violate(
+						"C20/origins/spurious/outside-the-ancestor-chain/symlinked-directory",
+						format!("origins({}) returned {}, which is neither the given path nor one of its ancestors (the path runs through the symlink {} -> ../real/proj)", start.display(), g.display(), link.display()),
+						input.clone(),
+					);
+				}
+			}
+			if !got.contains(&link) {
+				out.violate(
+					format!("C20/origins/missed/symlinked-directory/{marker}"),
+					format!("origins({}) = {:?}: {} holds {marker} and is on the chain of the given path", start.display(), got, link.display()),
+					input.clone(),
+				);
+			}
+			if got.contains(&link_parent) || got.contains(&link.join("sub")) {
+				out.violate("C20/origins/spurious/unmarked-directory/symlinked-directory", format!("origins({}) = {:?}", start.display(), got), input);
+			}
+		}
+	}
+	out.extra.insert("symlinked_chain_leg".into(), json!(format!("{cases} start paths through a symlinked directory")));
+}
 
 /// Entry point of the chrooted child: `h-enum C20 --chroot-leg <dir>`.
 pub fn chroot_child(dir: &str) -> i32 {
